@@ -122,9 +122,29 @@ def fn_yaml(fn, ov, clsname=None):
     return d
 
 
+def doc_un_camel(text):
+    """The documented CamelCase -> under_score rule (util.un_camel docstring and the reference outputs), written
+    independently of shroud/util.py: an upper-case letter is lower-cased; from the third character on it also gets
+    an underscore in front when its left neighbour is lower-case or its right neighbour is lower-case."""
+    out = []
+    for pos, ch in enumerate(text):
+        if "A" <= ch <= "Z":
+            left = pos >= 2 and "a" <= text[pos - 1] <= "z"
+            right = pos >= 2 and pos + 1 < len(text) and "a" <= text[pos + 1] <= "z"
+            out.append(("_" if (left or right) else "") + ch.lower())
+        else:
+            out.append(ch)
+    return "".join(out)
+
+
+def is_ns(kind):
+    return kind in ("ns", "nsf")
+
+
 def normalize(prog):
     """JSON round trip turns tuples into lists; restore the hashable forms."""
     prog["wrap"] = tuple(prog["wrap"])
+    prog.setdefault("cprefix", None)
     prog["containers"] = [dict(path=[tuple(s) for s in c["path"]], fns=c["fns"]) for c in prog["containers"]]
     return prog
 
@@ -135,6 +155,8 @@ def program_yaml(prog):
     top = {"library": prog["library"],
            "options": {"wrap_c": w[0], "wrap_fortran": w[1], "wrap_python": w[2], "wrap_lua": w[3]},
            "declarations": []}
+    if prog.get("cprefix") is not None:
+        top["format"] = {"C_prefix": prog["cprefix"]}
     nodes = {(): top}
 
     def node_for(path):
@@ -143,7 +165,10 @@ def program_yaml(prog):
             return nodes[path]
         parent = node_for(path[:-1])
         kind, name = path[-1]
-        d = {"decl": ("namespace " if kind == "ns" else "class ") + name, "declarations": []}
+        d = {"decl": ("namespace " if is_ns(kind) else "class ") + name, "declarations": []}
+        if is_ns(kind):
+            # set explicitly on every namespace: options are inherited by nested namespaces otherwise
+            d["options"] = {"F_flatten_namespace": kind == "nsf"}
         parent["declarations"].append(d)
         nodes[path] = d
         return d
@@ -188,7 +213,7 @@ class contextlib_redirect(object):
 def find_node(lib, path):
     node = lib.wrap_namespace
     for kind, name in path:
-        if kind == "ns":
+        if is_ns(kind):
             node = [n for n in node.namespaces if n.name == name][0]
         else:
             node = [n for n in node.classes if n.name == name][0]
@@ -239,13 +264,14 @@ def enc_fn(fn):
 
 
 def enc_container(c):
-    path = "/".join(("c=" if k == "cls" else "n=") + common.enc(n) for k, n in c["path"]) or "~"
+    path = "/".join({"cls": "c=", "ns": "n=", "nsf": "f="}[k] + common.enc(n) for k, n in c["path"]) or "~"
     return path + "@" + ("!".join(enc_fn(f) for f in c["fns"]) or "~")
 
 
 def enc_prog(prog):
     w = "".join("1" if b else "0" for b in prog["wrap"])
-    return "ex %s %s %s" % (w, common.enc(prog["library"]), " ".join(enc_container(c) for c in prog["containers"]))
+    lib = common.enc(prog["library"]) if prog.get("cprefix") is None else "P" + common.enc(prog["cprefix"])
+    return "ex %s %s %s" % (w, lib, " ".join(enc_container(c) for c in prog["containers"]))
 
 
 # ------------------------------------------------------------------ generators
@@ -289,7 +315,62 @@ def mk_small(name, cfg, idx):
 
 
 def root_prog(fns, wrap=(True, True, False, False), library="nm"):
-    return dict(library=library, wrap=wrap, containers=[dict(path=[], fns=fns)])
+    return dict(library=library, wrap=wrap, cprefix=None, containers=[dict(path=[], fns=fns)])
+
+
+def scope_programs(thorough, r):
+    """Options and structures that change name scoping: namespaces nested 2-3 deep, F_flatten_namespace on any
+    of them, classes inside namespaces, the same function names in different scopes, explicit C_prefix, and
+    names that only the documented un_camel rule keeps apart (xCoord / x_coord)."""
+    cfgs = [(0, 0, 0, None), (1, 0, 0, None), (0, 0, 2, None), (0, 2, 0, None)]
+    shapes = []
+    for k1, k2, k3 in itertools.product(("ns", "nsf"), repeat=3):
+        shapes.append([[], [(k1, "ns1")], [(k2, "ns2")], [("ns", "ns3")]])
+        shapes.append([[(k1, "outer")], [(k1, "outer"), (k2, "inner")], [(k1, "outer"), (k2, "inner"), (k3, "deep")]])
+        shapes.append([[(k1, "ns1")], [(k1, "ns1"), ("cls", "Mesh")], [(k2, "ns2")], [(k2, "ns2"), ("cls", "Grid")],
+                       [(k1, "ns1"), (k3, "sub")]])
+    seen = set()
+    for shape in shapes:
+        key = json.dumps(shape)
+        if key in seen:
+            continue
+        seen.add(key)
+        for ci, cfg in enumerate(cfgs if thorough else cfgs[:3]):
+            conts = []
+            for p in shape:
+                fns = [mk_small("bar", cfg, 0), mk_small("bar", (0, 0, 0, None), 1), mk_small("foo", (0, 0, 0, None), 0)]
+                if p and p[-1][0] == "cls":
+                    fns = [mkfn("ctor", nparams=0, isCtor=True), mkfn("ctor", nparams=1, isCtor=True)] + fns
+                conts.append(dict(path=p, fns=fns))
+            yield dict(library="lib", wrap=(True, True, False, False), cprefix=(None, "XY_", "Q")[ci % 3], containers=conts)
+    # names kept apart only by the documented un_camel rule
+    pairs = [("xCoord", "x_coord"), ("nItems", "n_items"), ("aB", "a_b"), ("aBc", "a_bc"), ("getX", "get_x"),
+             ("isOK", "is_ok"), ("x1Y", "x1_y"), ("ABc", "a_bc"), ("HTTPCode", "http_code"), ("incrementCount", "increment_count")]
+    for a, b in pairs:
+        for p in ([], [("ns", "ns1")], [("nsf", "ns1")], [("cls", "Mesh")]):
+            yield dict(library="lib", wrap=(True, True, False, False), cprefix=None,
+                       containers=[dict(path=p, fns=[mkfn(a), mkfn(b, nparams=2), mkfn("other")])])
+
+
+def batch_programs(progs, size=20):
+    """Put the single-scope programs of a list side by side as namespaces b0..b<n> of one library (the
+    per-library start-up cost of Shroud dominates the run time).  Every 10th program is kept as it is."""
+    out, pend = [], []
+    for i, p in enumerate(progs):
+        simple = (len(p["containers"]) == 1 and not p["containers"][0]["path"] and p["library"] == "nm"
+                  and tuple(p["wrap"]) == (True, True, False, False) and p.get("cprefix") is None)
+        if simple and i % 10:
+            pend.append(p)
+            if len(pend) == size:
+                out.append(dict(library="nm", wrap=(True, True, False, False), cprefix=None,
+                                containers=[dict(path=[("ns", "b%d" % j)], fns=q["containers"][0]["fns"]) for j, q in enumerate(pend)]))
+                pend = []
+        else:
+            out.append(p)
+    if pend:
+        out.append(dict(library="nm", wrap=(True, True, False, False), cprefix=None,
+                        containers=[dict(path=[("ns", "b%d" % j)], fns=q["containers"][0]["fns"]) for j, q in enumerate(pend)]))
+    return out
 
 
 def exhaustive_programs(thorough, r):
@@ -329,7 +410,7 @@ def exhaustive_programs(thorough, r):
                     if p and p[-1][0] == "cls":
                         fns = [mkfn("ctor", nparams=0, isCtor=True), mkfn("ctor", nparams=2, ndefaults=1, isCtor=True)] + fns
                     conts.append(dict(path=p, fns=fns))
-                yield dict(library="library", wrap=(True, True, False, False), containers=conts)
+                yield dict(library="library", wrap=(True, True, False, False), cprefix=None, containers=conts)
     for wrap in itertools.product((False, True), repeat=4):
         yield root_prog([mk_small("fooBar", (1, 2, 2, None), 0), mk_small("fooBar", (0, 0, 0, None), 1),
                          mkfn("str", nparams=2, ndefaults=1, hasBuf=True)], wrap=wrap)
@@ -341,8 +422,10 @@ NAME_POOL = ["f", "foo", "fooBar", "FooBar", "getHTTPResponseCode", "get", "get_
 
 def random_program(r):
     conts = []
-    paths = [[], [("ns", "outer")], [("cls", "Cls1")], [("ns", "outer"), ("cls", "Cls2")], [("ns", "ns2")]]
-    for p in r.sample(paths, r.randrange(1, 4)):
+    k1, k2 = r.choice(["ns", "nsf"]), r.choice(["ns", "nsf"])
+    paths = [[], [(k1, "outer")], [("cls", "Cls1")], [(k1, "outer"), ("cls", "Cls2")], [(k2, "ns2")],
+             [(k1, "outer"), (k2, "Inner")], [(k1, "outer"), (k2, "Inner"), ("nsf", "deep")]]
+    for p in r.sample(paths, r.randrange(1, 5)):
         fns = []
         names = r.sample(NAME_POOL, r.randrange(1, 6))
         for _ in range(r.randrange(1, 9)):
@@ -364,127 +447,222 @@ def random_program(r):
                                                                suffix=r.choice([None, None, "_c%d" % k])))
         conts.append(dict(path=p, fns=fns))
     wrap = (r.random() < 0.9, r.random() < 0.9, r.random() < 0.3, r.random() < 0.3)
-    return dict(library=r.choice(["nm", "library", "ab", "Tutorial"]), wrap=wrap, containers=conts)
+    return dict(library=r.choice(["nm", "library", "ab", "Tutorial"]), wrap=wrap,
+                cprefix=r.choice([None, None, None, "XY_", "p", ""]), containers=conts)
+
+
+# ------------------------------------------------------------------ documented names (from the input alone)
+AUTO = re.compile(r"^_[0-9]+$")
+TOKEN = re.compile(r"^_[a-z0-9]+$")
+
+
+def scope_info(prog, path):
+    """Documented scope values of a declaration path: C prefix, C_name_scope, F_name_scope, Fortran module
+    (the innermost namespace that is not flattened into its parent), class name."""
+    cprefix = prog.get("cprefix")
+    if cprefix is None:
+        cprefix = prog["library"].upper()[:3] + "_"
+    cscope = "".join(n + "_" for _, n in path)
+    fscope = "".join(n.lower() + "_" for k, n in path if k in ("nsf", "cls"))
+    last = max([i for i, (k, _) in enumerate(path) if k == "ns"], default=-1)
+    module = tuple(n for _, n in path[:last + 1])
+    cls = path[-1][1] if path and path[-1][0] == "cls" else None
+    return cprefix, cscope, fscope, module, cls
+
+
+def entries_of(fns):
+    """Entry points of one C++ name in declaration order: (explicit suffix or None, template suffix, generic
+    suffixes, bufferify?) -- default-argument variants first, then the declaration / its instantiations."""
+    out = []
+    for fn in fns:
+        gs = [g if g is not None else "_%d" % j for j, g in enumerate(fn["generics"])]
+        for k in range(fn["ndefaults"]):
+            e = fn["dsuffix"][k] if k < len(fn["dsuffix"]) else fn["suffix"]
+            out.append((e, "", gs, fn["hasBuf"], bool(fn["tinst"])))
+        e = fn["dsuffix"][fn["ndefaults"]] if (fn["ndefaults"] and fn["ndefaults"] < len(fn["dsuffix"])) else fn["suffix"]
+        if fn["tinst"]:
+            for i, t in enumerate(fn["tinst"]):
+                ts = t["explicit"] or (FLAT[t["types"][0]] if len(t["types"]) == 1 else "_%d" % i)
+                out.append((e, ts, gs, fn["hasBuf"], True))
+        else:
+            out.append((e, "", gs, fn["hasBuf"], False))
+    return out
+
+
+def documented_names(prog):
+    """All names the documented templates give: C entry points, Fortran specifics per module and the generic
+    interfaces (key -> members) per module.  Overload numbers count the non-template entry points of a name."""
+    w = prog["wrap"]
+    cnames, fspec, generics = [], {}, {}
+    for c in prog["containers"]:
+        cprefix, cscope, fscope, module, cls = scope_info(prog, c["path"])
+        groups = {}
+        for fn in c["fns"]:
+            groups.setdefault(fn["name"], []).append(fn)
+        for name, fns in groups.items():
+            ents = entries_of(fns)
+            nnum = sum(1 for e in ents if not e[4])
+            i = 0
+            members = []
+            u = doc_un_camel(name)
+            for (e, ts, gs, hb, templ) in ents:
+                if templ:
+                    sfx = e or ""
+                else:
+                    sfx = e if e is not None else ("_%d" % i if nnum > 1 else "")
+                    i += 1
+                cnames.append(cprefix + cscope + u + sfx + ts)
+                if hb and w[0] and w[1]:
+                    cnames.append(cprefix + cscope + u + sfx + "_bufferify" + ts)
+                for g in (gs or [""]):
+                    members.append((fscope + u + sfx + g + ts).lower())
+            fspec.setdefault(module, []).extend(members)
+            if cls is None:
+                if len(members) > 1 or any(f["generics"] for f in fns):
+                    generics.setdefault(module, {})[(fscope + u).lower()] = sorted(members)
+            elif fns[0]["isCtor"]:
+                generics.setdefault(module, {})[cls.lower()] = sorted(members)
+    return cnames, fspec, generics
 
 
 # ------------------------------------------------------------------ oracle (implementation only)
 def in_domain(prog):
-    """The property's hypothesis, decided on the input alone: explicit suffixes attached to the entry points of
-    one name are pairwise distinct and not of the form _<digits>; a templated function has no default arguments
-    and shares its name with no other function; underscore forms of distinct names are not prefixes of each other
-    (per scope; scopes are disjoint by construction of the generator)."""
-    from shroud import util  # un_camel is part of the documented name rule
-    auto = re.compile(r"^_[0-9]+$")
-    stems = []
+    """The property's hypothesis, decided on the input alone with the documented un_camel rule: explicit
+    suffixes attached to the entry points of one name are pairwise distinct (also ignoring case), single
+    `_token`s and not of the form _<digits>; generic suffixes likewise; a templated function has no default
+    arguments and shares its name with no other function; scope + underscore forms of different names are not
+    prefixes of one another (C: whole program; Fortran: per module)."""
+    cst, fst = [], {}
     for c in prog["containers"]:
+        cprefix, cscope, fscope, module, cls = scope_info(prog, c["path"])
         byname = {}
         for fn in c["fns"]:
             byname.setdefault(fn["name"], []).append(fn)
         for name, fns in byname.items():
-            stems.append("_".join(n for _, n in c["path"]) + "|" + util.un_camel(name))
+            u = doc_un_camel(name)
+            cst.append(cscope + u)
+            fst.setdefault(module, []).append((fscope + u).lower())
             expl = []
             for fn in fns:
                 if fn["tinst"]:
                     if fn["ndefaults"] or len(fns) > 1:
                         return False
-                    ts = []
-                    for i, t in enumerate(fn["tinst"]):
-                        ts.append(t["explicit"] or (FLAT[t["types"][0]] if len(t["types"]) == 1 else "_%d" % i))
-                    if len(set(ts)) != len(ts):
+                    ts = [t["explicit"] or (FLAT[t["types"][0]] if len(t["types"]) == 1 else "_%d" % i)
+                          for i, t in enumerate(fn["tinst"])]
+                    if len(set(ts)) != len(ts) or any(not re.match(r"^_[A-Za-z0-9]+$", t) for t in ts):
                         return False
                 gs = [g if g is not None else "_%d" % j for j, g in enumerate(fn["generics"])]
-                if len(set(gs)) != len(gs):
+                if len(set(gs)) != len(gs) or any(not TOKEN.match(g) for g in gs):
                     return False
-                for k in range(fn["ndefaults"] + 1):
-                    if fn["ndefaults"] and k < len(fn["dsuffix"]):
-                        expl.append(fn["dsuffix"][k])
-                    elif fn["suffix"] is not None:
-                        expl.append(fn["suffix"])
-            if len(set(expl)) != len(expl) or any(auto.match(e) for e in expl):
+            for (e, ts, gs, hb, templ) in entries_of(fns):
+                if e is not None:
+                    expl.append(e)
+            if any(AUTO.match(e) or not TOKEN.match(e) or e == "_bufferify" for e in expl):
                 return False
-            low = [e.lower() for e in expl]
-            if len(set(low)) != len(low):
+            if any(fn["tinst"] for fn in fns):
+                continue
+            if len(set(expl)) != len(expl):
                 return False
-            if any("_bufferify" in e for e in expl):
-                return False
-            if (expl or any(fn["generics"] for fn in fns)) and len(fns) + sum(f["ndefaults"] for f in fns) > 1:
-                # suffix concatenations (explicit + generic) are outside the proven core; keep them simple
-                if any(not re.match(r"^_[a-z][a-z0-9]*$", e) for e in expl):
-                    return False
-    for a in stems:
-        for b in stems:
+    if len(set(cst)) != len(cst):
+        return False
+    for a in cst:
+        for b in cst:
             if a != b and b.startswith(a):
                 return False
+    for lst in fst.values():
+        if len(set(lst)) != len(lst):
+            return False
+        for a in lst:
+            for b in lst:
+                if a != b and b.startswith(a):
+                    return False
     return True
 
 
-C_DEF = re.compile(r"^[A-Za-z_][\w \*&:<>,]*?\b(\w+)\($")
-F_PROC = re.compile(r"^\s*(?:[\w\(\)=, \*]*\s)?(?:subroutine|function)\s+(\w+)\s*\(", re.I)
+def c_definitions(text, prefix=None):
+    """Names of the functions defined (not only declared) in a C/C++ source."""
+    out = []
+    lines = text.split("\n")
+    pat = re.compile(r"^[A-Za-z_].*?\b(" + (re.escape(prefix) + r"\w*" if prefix is not None else r"[A-Za-z_]\w*") + r")\(")
+    for i, ln in enumerate(lines[:-1]):
+        m = pat.match(ln)
+        if m and not ln.rstrip().endswith(";") and not ln.startswith(("static ", "typedef ", "extern ", "//", "using ", "namespace ")):
+            j = i
+            while j < len(lines) and ")" not in lines[j]:
+                j += 1
+            if j + 1 < len(lines) and lines[j + 1].strip() == "{" and not lines[j].rstrip().endswith(";"):
+                out.append(m.group(1))
+    return out
 
 
-def scan_outputs(files, prog):
-    """Return list of (key, what) problems found in the generated sources."""
+def fortran_entities(text):
+    """(module procedures after `contains`, bind(C) interface bodies, generic interfaces name -> members),
+    lower-cased."""
+    text = re.sub(r"&\n\s*", "", text)
+    procs, binds, ifaces, dup_if = [], [], {}, []
+    cur_iface = None
+    in_contains = False
+    for ln in text.split("\n"):
+        s = ln.strip()
+        low = s.lower()
+        if low.startswith("!") or low.startswith("#"):
+            continue
+        if low == "contains":
+            in_contains = True
+            continue
+        m = re.match(r"^interface\s+(\w+)$", low)
+        if m:
+            cur_iface = m.group(1)
+            if cur_iface in ifaces:
+                dup_if.append(cur_iface)
+            ifaces.setdefault(cur_iface, [])
+            continue
+        if low.startswith("end interface"):
+            cur_iface = None
+            continue
+        m = re.match(r"^module procedure\s+(\w+)$", low)
+        if m and cur_iface:
+            ifaces[cur_iface].append(m.group(1))
+            continue
+        m = re.match(r"^(?:[\w\(\)=,\* ]+\s)?(subroutine|function)\s+(\w+)\s*\(", low)
+        if m and not low.startswith("end "):
+            if "bind(c" in low:
+                binds.append(m.group(2))
+            elif in_contains:
+                procs.append(m.group(2))
+    return procs, binds, ifaces, dup_if
+
+
+def method_tables(fn, text):
+    """{table name: [keys]} of PyMethodDef / luaL_Reg tables."""
+    out = {}
+    if fn.startswith("py") and fn.endswith((".cpp", ".c")):
+        for m in re.finditer(r"static PyMethodDef (\w+)\[\] = \{(.*?)\n\};", text, re.S):
+            out["py:" + m.group(1)] = re.findall(r'\{"(\w+)",', m.group(2))
+    if fn.startswith("lua") and fn.endswith((".cpp", ".c")):
+        for m in re.finditer(r"static const struct luaL_Reg (\w+) \[\] = \{(.*?)\n\};", text, re.S):
+            out["lua:" + m.group(1)] = re.findall(r'\{"(\w+)",', m.group(2))
+    return out
+
+
+def scan_outputs(files, prefix):
+    """Return (problems, C definitions, {fortran file: (procs, binds, ifaces)})."""
     problems = []
     ftab = {}
-    prefix = prog["library"].upper()[:3] + "_"
     cdefs = []
     for fn, data in files.items():
         text = data.decode()
-        if fn.startswith("wrap") and (fn.endswith(".cpp") or fn.endswith(".c")):
-            lines = text.split("\n")
-            for i, ln in enumerate(lines[:-1]):
-                m = re.match(r"^[A-Za-z_].*?\b(" + re.escape(prefix) + r"\w+)\(", ln)
-                if m and not ln.rstrip().endswith(";"):
-                    # a definition: the closing parenthesis line is followed by '{'
-                    j = i
-                    while j < len(lines) and ")" not in lines[j]:
-                        j += 1
-                    if (j + 1 < len(lines) and lines[j + 1].strip() == "{" and not lines[j].rstrip().endswith(";")
-                            and not m.group(1).startswith(prefix + "SHROUD_")):
-                        cdefs.append(m.group(1))
+        if fn.startswith("wrap") and fn.endswith((".cpp", ".c")):
+            cdefs.extend(n for n in c_definitions(text, prefix) if not n.startswith(prefix + "SHROUD_"))
     dup = sorted({n for n in cdefs if cdefs.count(n) > 1})
     if dup:
         problems.append(("dup-c", "C function defined more than once: %s" % ", ".join(dup)))
-    # Fortran
     for fn, data in files.items():
         if not fn.endswith(".f"):
             continue
-        text = data.decode()
-        # join continuation lines
-        text = re.sub(r"&\n\s*", "", text)
-        procs, binds, ifaces = [], [], {}
-        cur_iface = None
-        in_contains = False
-        depth_iface = 0
-        for ln in text.split("\n"):
-            s = ln.strip()
-            low = s.lower()
-            if low.startswith("!"):
-                continue
-            if low == "contains":
-                in_contains = True
-                continue
-            m = re.match(r"^interface\s+(\w+)$", s, re.I)
-            if m:
-                cur_iface = m.group(1)
-                if cur_iface.lower() in ifaces:
-                    problems.append(("dup-f-interface", "generic interface %s declared twice in %s" % (cur_iface, fn)))
-                ifaces.setdefault(cur_iface.lower(), [])
-                continue
-            if low.startswith("end interface"):
-                cur_iface = None
-                continue
-            m = re.match(r"^module procedure\s+(\w+)$", s, re.I)
-            if m and cur_iface:
-                ifaces[cur_iface.lower()].append(m.group(1).lower())
-                continue
-            m = re.match(r"^(?:[\w\(\)=,\* ]+\s)?(subroutine|function)\s+(\w+)\s*\(", s, re.I)
-            if m and not low.startswith("end "):
-                name = m.group(2).lower()
-                if "bind(c" in low:
-                    binds.append(name)
-                elif in_contains:
-                    procs.append(name)
+        procs, binds, ifaces, dup_if = fortran_entities(data.decode())
+        for k in dup_if:
+            problems.append(("dup-f-interface", "generic interface %s declared twice in %s" % (k, fn)))
         for kind, lst in (("f-proc", procs), ("f-bind", binds)):
             d = sorted({n for n in lst if lst.count(n) > 1})
             if d:
@@ -501,66 +679,20 @@ def scan_outputs(files, prog):
                 if mname not in procs:
                     problems.append(("f-generic-member-missing", "generic interface %s lists %s which is not a module procedure of %s" % (k, mname, fn)))
         ftab[fn] = (procs, binds, ifaces)
-    # Python / Lua method tables
     for fn, data in files.items():
-        text = data.decode()
-        if fn.startswith("py") and (fn.endswith(".cpp") or fn.endswith(".c")):
-            for m in re.finditer(r"static PyMethodDef (\w+)\[\] = \{(.*?)\n\};", text, re.S):
-                keys = re.findall(r'\{"(\w+)",', m.group(2))
-                d = sorted({k for k in keys if keys.count(k) > 1})
-                if d:
-                    problems.append(("dup-py-method", "PyMethodDef %s has duplicate keys %s" % (m.group(1), d)))
-        if fn.startswith("lua") and (fn.endswith(".cpp") or fn.endswith(".c")):
-            for m in re.finditer(r"static const struct luaL_Reg (\w+) \[\] = \{(.*?)\n\};", text, re.S):
-                keys = re.findall(r'\{"(\w+)",', m.group(2))
-                d = sorted({k for k in keys if keys.count(k) > 1})
-                if d:
-                    problems.append(("dup-lua-method", "luaL_Reg %s has duplicate keys %s" % (m.group(1), d)))
+        for tname, keys in method_tables(fn, data.decode()).items():
+            d = sorted({k for k in keys if keys.count(k) > 1})
+            if d:
+                problems.append(("dup-" + tname.split(":")[0] + "-method", "method table %s has duplicate keys %s" % (tname, d)))
     return problems, cdefs, ftab
 
 
-def expected_counts(prog):
-    """Documented number of C entry points and Fortran specifics, from the input alone."""
-    nc = nf = 0
-    w = prog["wrap"]
-    for c in prog["containers"]:
-        for fn in c["fns"]:
-            sigs = (fn["ndefaults"] + 1) * max(1, len(fn["tinst"]))
-            buf = 2 if (fn["hasBuf"] and w[0] and w[1]) else 1
-            nc += sigs * buf
-            nf += sigs * max(1, len(fn["generics"]))
-    return nc, nf
-
-
-def documented_c_names(prog):
-    """C names by the documented rule (prefix, scope, underscore name, function suffix), computed from the input
-    alone, for template-free programs: entry points of one name in declaration order (default-argument variants
-    first), numbered _0.._n-1 when there are several unless a suffix was given explicitly."""
-    from shroud import util
-    names = []
-    prefix = prog["library"].upper()[:3] + "_"
-    w = prog["wrap"]
-    for c in prog["containers"]:
-        scope = "".join(n + "_" for _, n in c["path"])
-        groups = {}
-        for fn in c["fns"]:
-            if fn["tinst"]:
-                return None
-            g = groups.setdefault(fn["name"], [])
-            for k in range(fn["ndefaults"] + 1):
-                e = fn["dsuffix"][k] if (fn["ndefaults"] and k < len(fn["dsuffix"])) else fn["suffix"]
-                g.append((e, fn["hasBuf"]))
-        for name, g in groups.items():
-            for i, (e, hb) in enumerate(g):
-                sfx = e if e is not None else ("_%d" % i if len(g) > 1 else "")
-                names.append(prefix + scope + util.un_camel(name) + sfx)
-                if hb and w[0] and w[1]:
-                    names.append(prefix + scope + util.un_camel(name) + sfx + "_bufferify")
-    return names
+GI_REQS = []   # (prog, model request lines, parsed interfaces) collected for the generic-table correspondence
 
 
 def oracle_full(ctx, prog, tag):
-    """Generate for real; report duplicate / missing names.  Returns True if a failure was recorded."""
+    """Generate for real; compare every emitted name with the documented one; report duplicate, missing and
+    misfiled names.  Returns True if a failure was recorded."""
     import yaml
     from tools import shroudrun
     if not (prog["wrap"][0] and prog["wrap"][1]):
@@ -568,10 +700,11 @@ def oracle_full(ctx, prog, tag):
     d = common.scratch()
     try:
         yd = program_yaml(prog)
-        path = shroudrun.write_yaml(d, "c08.yaml", yaml.safe_dump(yd, default_flow_style=False))
+        ytext = yaml.safe_dump(yd, default_flow_style=False)
+        path = shroudrun.write_yaml(d, "c08.yaml", ytext)
         cfg, exc, out = shroudrun.run_inproc([path], d)
         ctx.count(1)
-        replay = {"yaml": yaml.safe_dump(yd, default_flow_style=False), "prog": prog}
+        replay = {"yaml": ytext, "prog": prog}
         has_tdef = any(fn["tinst"] and fn["ndefaults"] for c in prog["containers"] for fn in c["fns"])
         if exc is not None:
             if has_tdef:
@@ -581,50 +714,147 @@ def oracle_full(ctx, prog, tag):
             ctx.note("generation_errors", ctx.notes.get("generation_errors", 0) + 1)
             ctx.notes.setdefault("generation_error_samples", [])
             if len(ctx.notes["generation_error_samples"]) < 3:
-                ctx.notes["generation_error_samples"].append({"exc": repr(exc)[:200], "yaml": replay["yaml"]})
+                ctx.notes["generation_error_samples"].append({"exc": repr(exc)[:200], "yaml": ytext})
             return False
         files = shroudrun.read_tree(d, skip_ext=(".log", ".json", ".yaml"))
-        problems, cdefs, ftab = scan_outputs(files, prog)
+        cprefix = scope_info(prog, [])[0]
+        problems, cdefs, ftab = scan_outputs(files, cprefix)
         failed = False
         for key, what in problems:
             failed |= bool(ctx.fail("%s:%s" % (tag, key), what, replay))
-        ec, ef = expected_counts(prog)
-        # a function that needs no Fortran wrapper is exposed through its bind(C) interface under the
-        # Fortran name (no F_C_prefix "c_"); it counts as the specific procedure of that signature
-        nprocs = sum(len(v[0]) + len([b for b in v[1] if not b.startswith("c_")]) for v in ftab.values())
-        # class helper procedures (get_instance, ...) only exist for classes; compare for class-free programs
+        doc_c, doc_f, doc_g = documented_names(prog)
+        if sorted(doc_c) != sorted(cdefs):
+            failed |= bool(ctx.fail("%s:names-c" % tag, "C entry points differ from the documented names: generated only %s, documented only %s"
+                                    % (sorted(set(cdefs) - set(doc_c)) or (len(cdefs), "entries"), sorted(set(doc_c) - set(cdefs)) or (len(doc_c), "entries")), replay))
+        # Fortran specifics: a function that needs no wrapper is exposed through its bind(C) interface under the
+        # Fortran name; classes add helper procedures (get_instance, ...), so documented names must be present,
+        # and for class-free programs nothing else may be
         has_cls = any(k == "cls" for c in prog["containers"] for k, _ in c["path"])
-        if len(cdefs) != ec and not has_cls:
-            failed |= bool(ctx.fail("%s:count-c" % tag, "expected %d C entry points, generated %d (%s)" % (ec, len(cdefs), sorted(cdefs)), replay))
-        if nprocs != ef and not has_cls:
-            failed |= bool(ctx.fail("%s:count-f" % tag, "expected %d Fortran specific procedures, generated %d" % (ef, nprocs), replay))
-        doc = documented_c_names(prog)
-        if doc is not None and not has_cls and sorted(doc) != sorted(cdefs):
-            failed |= bool(ctx.fail("%s:names-c" % tag, "C entry points %s differ from the documented names %s" % (sorted(cdefs), sorted(doc)), replay))
-        # generic interface membership for class-free programs: every name with >1 Fortran specific has an
-        # interface listing exactly its specifics
-        if not has_cls:
-            from shroud import util
-            expected = []
-            for c in prog["containers"]:
-                byname = {}
-                for fn in c["fns"]:
-                    byname.setdefault(fn["name"], []).append(fn)
-                for name, fns in byname.items():
-                    n = sum((f["ndefaults"] + 1) * max(1, len(f["tinst"])) * max(1, len(f["generics"])) for f in fns)
-                    if n > 1 or any(f["generics"] for f in fns):
-                        expected.append((util.un_camel(name).lower(), n))
-            got = []
-            for fn_, v in ftab.items():
-                for g, mem in v[2].items():
-                    got.append((g, len(mem)))
-                    if any(not m.startswith(g) for m in mem):
-                        failed |= bool(ctx.fail("%s:generic-members" % tag, "generic interface %s of %s lists %s: not all specifics of that name" % (g, fn_, mem), replay))
-            if sorted(got) != sorted(expected):
-                failed |= bool(ctx.fail("%s:generic-interfaces" % tag, "generic interfaces (name, members) %s, expected %s" % (sorted(got), sorted(expected)), replay))
+        allf = [n for v in ftab.values() for n in v[0] + [b for b in v[1] if not b.startswith("c_")]]
+        docf = [n for lst in doc_f.values() for n in lst]
+        missing = sorted(set(docf) - set(allf))
+        extra_f = sorted(set(allf) - set(docf)) if not has_cls else []
+        if missing or extra_f or (not has_cls and len(allf) != len(docf)):
+            failed |= bool(ctx.fail("%s:names-f" % tag, "Fortran specific procedures differ from the documented names: missing %s, undocumented %s "
+                                    "(%d generated, %d documented)" % (missing, extra_f, len(allf), len(docf)), replay))
+        # generic interfaces: per generic name exactly the specifics of that scope's C++ name
+        got = sorted((k, tuple(sorted(mem))) for v in ftab.values() for k, mem in v[2].items())
+        exp = sorted((k, tuple(mem)) for m in doc_g.values() for k, mem in m.items())
+        if got != exp:
+            failed |= bool(ctx.fail("%s:generic-interfaces" % tag, "generic interfaces differ from the documented ones: generated only %s, documented only %s"
+                                    % ([g for g in got if g not in exp], [e for e in exp if e not in got]), replay))
+        w = "".join("1" if b else "0" for b in prog["wrap"])
+        lib = common.enc(prog["library"]) if prog.get("cprefix") is None else "P" + common.enc(prog["cprefix"])
+        reqs = ["gi %s %s %s" % (w, lib, enc_container(c)) for c in prog["containers"]
+                if not (c["path"] and c["path"][-1][0] == "cls")]
+        classkeys = {c["path"][-1][1].lower() for c in prog["containers"] if c["path"] and c["path"][-1][0] == "cls"}
+        GI_REQS.append((prog, reqs, [g for g in got if g[0] not in classkeys]))
         return failed
     finally:
         common.rmtree(d)
+
+
+def gi_correspondence(ctx, drv):
+    """Tie: the model's generic-interface table (driver op `gi`) vs the interfaces parsed from the generated
+    Fortran, for the programs the oracle generated."""
+    bad = []
+    lines = [q for _, reqs, _ in GI_REQS for q in reqs]
+    if not lines:
+        return
+    res = iter(drv.run(lines))
+    for prog, reqs, got in GI_REQS:
+        model = []
+        for _ in reqs:
+            t = next(res)
+            if t == "~":
+                continue
+            for ent in t.split(";"):
+                k, force, mem = ent.split("=")
+                members = [common.dec(x).lower() for x in mem.split("+")]
+                if force == "1" or len(members) > 1:
+                    model.append((common.dec(k).lower(), tuple(sorted(members))))
+        ctx.count(1)
+        if sorted(model) != got:
+            bad.append({"prog": prog, "model": sorted(model), "impl": got})
+    ctx.note("generic_tables_compared", len(GI_REQS))
+    if bad:
+        ctx.tie_broken("generic-table-correspondence", bad[:3])
+
+
+# ------------------------------------------------------------------ documented reference outputs
+REF_QUICK = ["tutorial", "names", "namespace", "scope", "generic", "templates", "classes"]
+
+
+def reference_names(ctx, thorough):
+    """The project's reference outputs (regression/reference/<config>) are its documented expected output:
+    every C definition, Fortran procedure / bind(C) interface / generic interface and method-table key that the
+    checkout generates for an upstream input must be the one in the reference."""
+    from tools import shroudrun
+    refroot = os.path.join(common.REPO, "regression", "reference")
+    names = [n for n, _, _ in shroudrun.CORPUS] if thorough else REF_QUICK
+    compared = 0
+    for name in names:
+        ref = os.path.join(refroot, name)
+        if not os.path.isdir(ref):
+            continue
+        d = common.scratch()
+        try:
+            cfg, exc, _ = shroudrun.run_corpus_inproc(name, d)
+            ctx.count(1)
+            if exc is not None:
+                continue
+            for fn, data in sorted(shroudrun.read_tree(d, skip_ext=(".log", ".json")).items()):
+                rp = os.path.join(ref, fn)
+                if not os.path.exists(rp):
+                    continue
+                gen, old = data.decode(), open(rp, "rb").read().decode()
+                if fn.endswith((".cpp", ".c")) and fn.startswith("wrap"):
+                    a, b = c_definitions(gen), c_definitions(old)
+                elif fn.endswith(".f"):
+                    ea, eb = fortran_entities(gen), fortran_entities(old)
+                    a = [ea[0], ea[1], sorted(ea[2].items())]
+                    b = [eb[0], eb[1], sorted(eb[2].items())]
+                elif fn.startswith(("py", "lua")) and fn.endswith((".cpp", ".c")):
+                    a, b = method_tables(fn, gen), method_tables(fn, old)
+                else:
+                    continue
+                compared += 1
+                if a != b:
+                    fa = json.dumps(a)
+                    fb = json.dumps(b)
+                    ga = set(re.findall(r"\w+", fa))
+                    gb = set(re.findall(r"\w+", fb))
+                    ctx.fail("reference-names:%s:%s" % (name, fn),
+                             "names generated for the upstream input %s differ from the reference output %s: generated only %s, reference only %s"
+                             % (name, fn, sorted(ga - gb)[:12], sorted(gb - ga)[:12]),
+                             {"corpus": name, "file": fn, "generated_only": sorted(ga - gb), "reference_only": sorted(gb - ga)})
+        finally:
+            common.rmtree(d)
+    ctx.note("reference_files_compared", compared)
+
+
+def frozen_un_camel(ctx, sutil):
+    """corpus/c08_uncamel.txt: documented output for every identifier over {x,C,c,1,_} up to length 5 and the
+    examples of the docstring; the implementation must reproduce it."""
+    path = os.path.join(common.CORPUS, "c08_uncamel.txt")
+    n = bad = 0
+    for ln in open(path):
+        ln = ln.rstrip("\n")
+        if not ln or ln.startswith("#"):
+            continue
+        src, want = ln.split(" ")
+        n += 1
+        try:
+            got = sutil.un_camel(src)
+        except Exception as e:  # noqa
+            got = "<%s>" % type(e).__name__
+        if got != want or doc_un_camel(src) != want:
+            bad += 1
+            if bad <= 5:
+                ctx.fail("un_camel-documented:%s" % src, "un_camel(%r) = %r, documented %r" % (src, got, want),
+                         {"un_camel": src, "got": got, "documented": want})
+    ctx.count(n)
+    ctx.note("frozen_un_camel_cases", n)
 
 
 # ------------------------------------------------------------------ run
@@ -640,8 +870,43 @@ def uc_strings(thorough, r):
         yield s
 
 
+def distribution(progs):
+    dist = {"programs": len(progs), "containers": 0, "functions": 0, "flattened_namespace": 0, "depth>=2": 0, "depth>=3": 0,
+            "class_in_namespace": 0, "same_name_in_two_scopes": 0, "explicit_C_prefix": 0, "with_defaults": 0,
+            "with_template": 0, "with_generics": 0, "with_bufferify": 0, "with_ctor": 0, "overload_sets>=2": 0,
+            "explicit_suffix": 0}
+    for p in progs:
+        dist["containers"] += len(p["containers"])
+        if p.get("cprefix") is not None:
+            dist["explicit_C_prefix"] += 1
+        names = {}
+        for c in p["containers"]:
+            path = c["path"]
+            nsdepth = sum(1 for k, _ in path if is_ns(k))
+            dist["flattened_namespace"] += any(k == "nsf" for k, _ in path)
+            dist["depth>=2"] += nsdepth >= 2
+            dist["depth>=3"] += nsdepth >= 3
+            dist["class_in_namespace"] += bool(path) and path[-1][0] == "cls" and nsdepth >= 1
+            seen = {}
+            for f in c["fns"]:
+                dist["functions"] += 1
+                dist["with_defaults"] += f["ndefaults"] > 0
+                dist["with_template"] += bool(f["tinst"])
+                dist["with_generics"] += bool(f["generics"])
+                dist["with_bufferify"] += f["hasBuf"]
+                dist["with_ctor"] += f["isCtor"]
+                dist["explicit_suffix"] += f["suffix"] is not None or bool(f["dsuffix"])
+                seen[f["name"]] = seen.get(f["name"], 0) + 1
+            dist["overload_sets>=2"] += sum(1 for v in seen.values() if v > 1)
+            for n in seen:
+                names.setdefault(n, set()).add(tuple(path))
+        dist["same_name_in_two_scopes"] += any(len(v) > 1 for v in names.values())
+    return {k: int(v) for k, v in dist.items()}
+
+
 def run(ctx):
     thorough = ctx.tier == "thorough"
+    del GI_REQS[:]
     ok = ctx.lean(MODULES, THEOREMS, extra_targets=("drv_names",))
     drv = common.Driver("drv_names")
     r = common.rng("c08")
@@ -649,17 +914,19 @@ def run(ctx):
         "Lean 4.33.0 kernel; axioms within {propext, Classical.choice, Quot.sound}",
         "hand-written model Model/Names.lean of define_function_suffix / Namify / un_camel, tied by differential correspondence",
         "identifiers and suffixes are ASCII (str.isupper/islower/lower modelled on ASCII)",
+        "documented names: regression/reference/<config> of the checkout, corpus/c08_uncamel.txt, the name templates of docs/reference.rst",
     ]
     ctx.cov["rule"] = ("expansion: every per-function configuration below the bound (<=2 defaults x <=2 instantiations x <=2 generics x "
-                       "explicit/default suffixes), all pairs/triples of overloads over reduced configurations, <=3 names, namespace/class "
-                       "paths, all wrap-flag combinations; seeded random programs above the bound. un_camel: every string over {a,B,C,1,_} "
-                       "up to a length bound + random identifiers. Non-trivial = the implementation produced at least one clone; distinct = "
-                       "distinct request lines.")
+                       "explicit/default suffixes), all pairs/triples of overloads over reduced configurations, <=3 names, namespaces nested "
+                       "up to 3 deep with and without F_flatten_namespace, classes inside namespaces, same names in several scopes, explicit "
+                       "C_prefix, all wrap-flag combinations; seeded random programs above the bound. un_camel: every string over "
+                       "{a,B,C,1,_} up to a length bound + random identifiers + frozen documented table. Non-trivial = the implementation "
+                       "produced at least one clone; distinct = distinct request lines.")
     ctx.assumptions += [
         "theorems are about the Lean model; the model is validated against the Python code by differential testing on generated inputs only",
-        "distinctness is proved inside the stated domain: explicit suffixes attached to the entry points of one name pairwise distinct and not "
-        "of the form _<digits>, templated functions without default arguments and alone in their name, underscore forms of distinct names not "
-        "prefixes of one another",
+        "distinctness is proved inside the stated domain (CoreOK / ExtOK / ScopesSep): explicit suffixes attached to the entry points of one "
+        "name pairwise distinct single `_token`s not of the form _<digits>, templated functions without default arguments, bufferify or "
+        "fortran_generic and alone in their name, scope + underscore forms of different names not prefixes of one another",
         "class template instantiation, return_this, CFI, assumed-rank, fortran_generic_c variants are not modelled",
     ]
     from shroud import ast as sast, util as sutil
@@ -676,6 +943,9 @@ def run(ctx):
             ctx.tie_broken("name-templates", {"model": model_t, "real": real_t})
     else:
         ctx.tie_broken("names-correspondence", "driver not built")
+
+    # ---------------- oracle: un_camel against the frozen documented table (implementation only)
+    frozen_un_camel(ctx, sutil)
 
     # ---------------- tie (D): un_camel
     ucs = list(dict.fromkeys(uc_strings(thorough, r)))
@@ -707,90 +977,101 @@ def run(ctx):
             if ln and not ln.startswith("#"):
                 progs.append(normalize(json.loads(ln)))
     ncorpus = len(progs)
+    progs.extend(scope_programs(thorough, r))
+    nscope = len(progs) - ncorpus
     progs.extend(exhaustive_programs(thorough, r))
-    nexh = len(progs) - ncorpus
-    nrand = 6000 if thorough else 1200
+    nexh = len(progs) - ncorpus - nscope
+    nrand = 5000 if thorough else 700
     for _ in range(nrand):
         progs.append(random_program(r))
-    reqs = [enc_prog(p) for p in progs]
-    impl = [real_expand(p) for p in progs]
+    ctx.note("distribution", distribution(progs))
+    runs = batch_programs(progs)
+    reqs = [enc_prog(p) for p in runs]
+    impl = [real_expand(p) for p in runs]
     ctx.count(len(progs))
     if drv.available() and ok:
         model = drv.run(reqs)
-        for p, q, a, b in zip(progs, reqs, impl, model):
+        for p, q, a, b in zip(runs, reqs, impl, model):
             if a != b:
                 if len(disagreements) < 5:
                     disagreements.append({"prog": p, "impl": a, "model": b})
                 else:
                     disagreements.append(None)
-            if "has_default_arg" in a or "cxx_template" in a or "fortran_generic" in a or "arg_to_buffer" in a:
-                ctx.nontrivial(q)
+            if a.startswith("crash"):
+                continue
+            for ci, cont in enumerate(a.split("#")):
+                if "has_default_arg" in cont or "cxx_template" in cont or "fortran_generic" in cont or "arg_to_buffer" in cont:
+                    ctx.nontrivial("%s#%d" % (q, ci))
         if disagreements:
             ctx.tie_broken("expand-correspondence", [d for d in disagreements if d][:5])
     ctx.note("corpus_programs", ncorpus)
+    ctx.note("scope_programs", nscope)
     ctx.note("exhaustive_programs", nexh)
     ctx.note("random_programs", nrand)
+    ctx.note("library_runs", len(runs))
     ctx.note("disagreements", len(disagreements) + len(uc_bad))
     ctx.note("impl_crashes", sum(1 for a in impl if a.startswith("crash")))
     ctx.note("records_compared", sum(a.count(";") + a.count("#") + 1 for a in impl if not a.startswith("crash")))
-    for p, a in list(zip(progs, impl))[:: max(1, len(progs) // 5)][:5]:
+    for p, a in list(zip(runs, impl))[:: max(1, len(runs) // 5)][:5]:
         ctx.sample({"prog": p, "impl": a[:400]})
 
     # ---------------- oracle: duplicate names straight from generate_functions (implementation only)
     dom = [p for p in progs if in_domain(p)]
     ctx.note("programs_in_domain", len(dom))
     outside_dups = 0
-    for p, a in zip(progs, impl):
+    nrep = 0
+    for p, a in zip(runs, impl):
         if a.startswith("crash"):
             continue
-        for ci, cont in enumerate(a.split("#")):
-            cn, fi = [], []
+        cn, fi = [], {}
+        for c, cont in zip(p["containers"], a.split("#")):
             if cont == "~":
                 continue
+            module = scope_info(p, c["path"])[3]
             for rec in cont.split(";"):
                 f = rec.split("|")
                 if f[5] != "N":
-                    cn.append(f[5])
+                    cn.append(common.dec(f[5][1:]))
                 if f[7] != "N":
-                    fi.append(f[7].lower())
-            dupc = len(set(cn)) != len(cn)
-            dupf = len(set(fi)) != len(fi)
-            if dupc or dupf:
-                if in_domain(p):
-                    names = sorted({common.dec(x[1:]) for x in cn if cn.count(x) > 1} | {common.dec(x[1:]) for x in fi if fi.count(x) > 1})
-                    ctx.fail("dup-names:generate_functions", "generate_functions gives the same name to two wrappers: %s" % names,
+                    fi.setdefault(module, []).append(common.dec(f[7][1:]).lower())
+        dups = sorted({x for x in cn if cn.count(x) > 1} | {x for lst in fi.values() for x in lst if lst.count(x) > 1})
+        if dups:
+            if in_domain(p):
+                nrep += 1
+                if nrep <= 5:
+                    ctx.fail("dup-names:generate_functions", "generate_functions gives the same name to two wrappers: %s" % dups,
                              {"prog": p, "yaml": program_yaml(p)})
-                else:
-                    outside_dups += 1
+            else:
+                outside_dups += 1
     ctx.note("duplicate_names_outside_domain", outside_dups)
 
-    # ---------------- known issue (design defect 18), outside the domain hypothesis: recorded, never an alarm
-    p18 = root_prog([mkfn("f", suffix="_1"), mkfn("f"), mkfn("f")])
-    a18 = real_expand(p18)
-    cn18 = [rec.split("|")[5] for rec in a18.split(";")] if not a18.startswith("crash") else []
-    ctx.note("explicit_suffix__1_clashes_with_auto_numbering", len(set(cn18)) != len(cn18))
-    pg = root_prog([mkfn("get"), mkfn("get"), mkfn("get_1")])
-    ag = real_expand(pg)
-    cng = [rec.split("|")[5] for rec in ag.split(";")] if not ag.startswith("crash") else []
-    ctx.note("function_named_like_auto_suffix_clashes", len(set(cng)) != len(cng))
+    # ---------------- known issues outside the domain hypothesis: recorded, never an alarm
+    def clash(fns):
+        a = real_expand(root_prog(fns))
+        cn = [x for x in (rec.split("|")[5] for rec in a.split(";")) if x != "N"] if not a.startswith("crash") else []
+        return len(set(cn)) != len(cn)
+    ctx.note("explicit_suffix__1_clashes_with_auto_numbering", clash([mkfn("f", suffix="_1"), mkfn("f"), mkfn("f")]))
+    ctx.note("function_named_like_auto_suffix_clashes", clash([mkfn("get"), mkfn("get"), mkfn("get_1")]))
+    ctx.note("multi_argument_template_suffix_clashes_with_overload_numbering",
+             clash([mkfn("f"), mkfn("f"), mkfn("f", nparams=2, tinst=TK[3])]))
+    ctx.note("explicit_function_suffix_inherited_by_default_clones_clashes", clash([mkfn("f", nparams=2, ndefaults=1, suffix="_x")]))
 
-    pm = root_prog([mkfn("f"), mkfn("f"), mkfn("f", nparams=2, tinst=TK[3])])
-    am = real_expand(pm)
-    cnm = [x for x in (rec.split("|")[5] for rec in am.split(";")) if x != "N"] if not am.startswith("crash") else []
-    ctx.note("multi_argument_template_suffix_clashes_with_overload_numbering", len(set(cnm)) != len(cnm))
-    pi = root_prog([mkfn("f", nparams=2, ndefaults=1, suffix="_x")])
-    ai = real_expand(pi)
-    cni = [rec.split("|")[5] for rec in ai.split(";")] if not ai.startswith("crash") else []
-    ctx.note("explicit_function_suffix_inherited_by_default_clones_clashes", len(set(cni)) != len(cni))
+    # ---------------- oracle: documented reference outputs of the upstream inputs
+    reference_names(ctx, thorough)
 
     # ---------------- oracle: full generation + output scan (implementation only)
-    cand = [p for p in dom if any(fn["ndefaults"] or fn["tinst"] or fn["generics"] or fn["hasBuf"] for c in p["containers"] for fn in c["fns"])]
-    nfull = (400 if thorough else 60) * (3 if ctx.broken else 1)
-    step = max(1, len(cand) // nfull)
-    pick = cand[::step][:nfull]
+    def interesting(p):
+        return (p.get("cprefix") != "" and
+                (len(p["containers"]) > 1 or any(k == "nsf" for c in p["containers"] for k, _ in c["path"]) or
+                 any(fn["ndefaults"] or fn["tinst"] or fn["generics"] or fn["hasBuf"] for c in p["containers"] for fn in c["fns"])))
+    cand = [p for p in dom if interesting(p)]
+    scoped = [p for p in cand if len(p["containers"]) > 1 or p["containers"][0]["path"]]
+    plain = [p for p in cand if not (len(p["containers"]) > 1 or p["containers"][0]["path"])]
+    nfull = (300 if thorough else 22) * (3 if ctx.broken else 1)
+    pick = scoped[:: max(1, len(scoped) // nfull)][:nfull] + plain[:: max(1, len(plain) // nfull)][:nfull]
     # make sure the scanners see Python and Lua tables as well
     extra = []
-    for p in pick[:: max(1, len(pick) // (40 if thorough else 8))]:
+    for p in pick[:: max(1, len(pick) // (40 if thorough else 6))]:
         q = normalize(json.loads(json.dumps(p)))
         q["wrap"] = (True, True, True, True)
         # Python/Lua method tables are flat per module/class: names must be distinct program-wide there
@@ -808,6 +1089,8 @@ def run(ctx):
     # template + default arguments: inside the property's quantifier, known finding
     oracle_full(ctx, root_prog([mkfn("tmpl", nparams=2, ndefaults=1, tinst=TK[2])]), "full")
     ctx.note("full_generations", len(pick) + len(extra) + 1)
+    if drv.available() and ok:
+        gi_correspondence(ctx, drv)
 
 
 def replay(path):
@@ -828,6 +1111,13 @@ def replay(path):
     c = C()
     for f in d.get("failing", []):
         rp = f["replay"]
+        if "un_camel" in rp:
+            from shroud import util
+            print(f["key"], "->", repr(util.un_camel(rp["un_camel"])), "documented", repr(rp["documented"]))
+            continue
+        if "corpus" in rp:
+            print(f["key"], "->", f["what"])
+            continue
         prog = rp.get("prog")
         if prog is None:
             continue
